@@ -25,7 +25,7 @@ def run_real(jobs, repo=None, timeout=600):
 # ---------------------------------------------------------------------------------------------------
 # small-value generators per L1 sort
 # ---------------------------------------------------------------------------------------------------
-STRS = ["", "a", "b c", "&", "<", ">", '"', "'", "\n", "\r", "a&b", "<b>x</b>", "&amp;", "&lt;", " x ", "é", "\U0001F600", "-->", "</script>", "x_y", "  "]
+STRS = ["", "a", "b c", "&", "<", ">", '"', "'", "\n", "\r", "a&b", "<b>x</b>", "&amp;", "&lt;", " x ", "é", "\U0001F600", "-->", "</script>", "x_y", "  ", "x-", "x_", "x__", "a_b_", "-", "_", "data-x-"]
 NAMES = ["div", "span", "p", "br", "img", "script", "style", "a", "x-y", "hr", "input", "custom"]
 ATTRN = ["id", "class", "data-x", "style", "href"]
 
